@@ -1,23 +1,35 @@
 """Runs the implementation (the real code from /repo) on generated or given scripts.
 
-usage: worker.py <PROP> <job.json> <out.jsonl>
-The environment (GEVENT_LOOP, PYTHONPATH) is prepared by lib.worker_env()."""
+usage: worker.py <PROP> <job.json> <out.jsonl> [<skip> <hangs>]
+The environment (GEVENT_LOOP, PYTHONPATH) is prepared by lib.worker_env().
+
+Watchdog: a script that burns more than SCRIPT_CPU_LIMIT seconds of CPU is recorded as a `hang`
+case (with the Python stack at that moment) and the worker re-executes itself, skipping the
+scripts already done, so that a non-terminating implementation neither blocks the check nor
+contaminates later scripts.  After MAX_HANGS hangs the job stops."""
+import itertools
 import json
 import os
 import random
+import signal
 import sys
 import traceback
+
+SCRIPT_CPU_LIMIT = float(os.environ.get('VERIF_SCRIPT_CPU_LIMIT', '20'))
+MAX_HANGS = 3
 
 
 def main():
     prop, job_file, out_file = sys.argv[1:4]
+    skip = int(sys.argv[4]) if len(sys.argv) > 4 else 0
+    hangs = int(sys.argv[5]) if len(sys.argv) > 5 else 0
     job = json.load(open(job_file))
     here = os.path.dirname(os.path.abspath(__file__))
     sys.path.insert(0, here)
     import rt  # noqa: installs the virtual loop / clock before scales is imported
     import importlib
     mod = importlib.import_module('props.' + prop.lower())
-    out = open(out_file, 'w')
+    out = open(out_file, 'a' if skip else 'w')
 
     def emit(rec):
         out.write(json.dumps(rec) + '\n')
@@ -30,7 +42,24 @@ def main():
         scripts = mod.exhaustive(job.get('tier', 'quick'), job.get('shard', 0), job.get('shards', 1))
     else:
         scripts = job['scripts']
-    for script in scripts:
+    state = {'done': skip, 'script': None}
+
+    def on_hang(signum, frame):
+        stack = ''.join(traceback.format_stack(frame)[-12:])
+        emit({'comp': getattr(mod, 'COMPONENT', '?'), 'cfg': 'harness-error', 'steps': [],
+              'tags': ['harness-error', 'hang'], 'script': state['script'],
+              'error': 'the implementation did not finish this script within %.0f s of CPU time; stack:\n%s'
+                       % (SCRIPT_CPU_LIMIT, stack[-1500:])})
+        out.close()
+        if hangs + 1 >= MAX_HANGS:
+            os._exit(0)
+        os.execv(sys.executable, [sys.executable, os.path.abspath(__file__), prop, job_file, out_file,
+                                  str(state['done'] + 1), str(hangs + 1)])
+
+    signal.signal(signal.SIGPROF, on_hang)
+    for script in itertools.islice(scripts, skip, None):
+        state['script'] = script
+        signal.setitimer(signal.ITIMER_PROF, SCRIPT_CPU_LIMIT)
         emit({'begin': script})
         try:
             case = mod.run_script(script)
@@ -39,7 +68,9 @@ def main():
                     'steps': [], 'tags': ['harness-error'],
                     'error': ''.join(traceback.format_exception(type(ex), ex, ex.__traceback__))[-1500:]}
         case['script'] = script
+        signal.setitimer(signal.ITIMER_PROF, 0)
         emit(case)
+        state['done'] += 1
     out.close()
 
 
